@@ -29,7 +29,7 @@ def tasks(tier):
             cfg = opt_cfg(spl, D)
             base = '%s,DIM=%d' % (spl.replace('SplineND', ''), D)
             T.append(Task('SplineOptimizer', 'calculateIntegralCost', None, cfg, label=base, setup=optimizer_default_maps, options=quad_options()))
-            T.append(Task('SplineOptimizer', 'evaluate', 7, cfg, label=base + ',own workspace', setup=optimizer_abstract_maps, options=eval_options(),
+            T.append(Task('SplineOptimizer', 'evaluate', 7, cfg, label=base + ',own workspace', setup=optimizer_user_maps, options=eval_options(),
                           pins={'p_ws_null': False}))
     return T
 
